@@ -36,7 +36,7 @@ CONFIG = dict(
         "rename(2), unlink(2), open(O_CREAT|O_TRUNC) are atomic; directory-entry durability is not modelled",
         "the wallet file exists before NewAddresses/ScanAddresses (it is the file the wallet was loaded from)",
     ],
-    rule="15 traced real saves per round (10 wallet scenarios incl. first-time creation of plain / encrypted / bip44-in-empty-dir / collection wallets, 2 kvstorage, 4 with a leftover torn temporary file); every "
+    rule="15 traced real saves per round (10 wallet scenarios incl. first-time creation of plain / encrypted / bip44-in-empty-dir / collection wallets, 2 kvstorage, 4 retried after a crash of the same save: the temporary file of that attempt — a real torn prefix of the data, empty, all but the last byte, or unrelated bytes — is still there, and the completed retry must show exactly what the clean save shows); every "
          "prefix k of the traced operation list x tear points {0,1,n/2,n-1}+random (quick) / every byte (thorough); "
          "distinct = distinct (op,result) lines",
 )
